@@ -4624,6 +4624,12 @@ static int32 writeCertificateStatus(ssl_t *ssl, sslBuf_t *out)
     {
         return MATRIXSSL_SUCCESS;
     }
+#ifdef MATRIXSSL_VERIF
+    if (psVerifHsSkip(ssl, SSL_HS_CERTIFICATE_STATUS))
+    {
+        return MATRIXSSL_SUCCESS;
+    }
+#endif
 
     psTracePrintHsMessageCreate(ssl, SSL_HS_CERTIFICATE_STATUS);
 
